@@ -29,7 +29,7 @@ ASSUMPTIONS = [
     "ClockSignal/ResetSignal targets are lowered by DomainLowerer before simulation / netlist emission",
 ]
 
-MIN_INSTANCES = {"R-02a": 60, "R-02b": 4, "R-02c": 8, "R-02d": 12, "R-02e": 6, "R-02g": 5, "R-02f": 3}
+MIN_INSTANCES = {"R-02h": 6, "R-02a": 60, "R-02b": 4, "R-02c": 8, "R-02d": 12, "R-02e": 6, "R-02g": 5, "R-02f": 3}
 
 LHS_KEYS = [("Signal", None), ("Slice", None), ("Part", None), ("Concat", None), ("SwitchValue", None),
             ("Operator", "u"), ("Operator", "s")]
@@ -205,6 +205,31 @@ def r02b(model, ctx):
               any(isinstance(x, ast.Call) and dotted(x.func) == "case_handler" for x in ast.walk(n))]
     ctx.check(len(mloops) == 1, R, "_emit_switch:match-order", "cases emitted in source order",
               "match form must iterate `cases` directly, in order", f"{PYRTL}:{fn.lineno}")
+    # every caller hands _emit_switch an *unsigned bit pattern* of the test (patterns decode to unsigned integers)
+    cls_names = ["_RHSValueCompiler.on_SwitchValue", "_LHSValueCompiler.on_SwitchValue.gen", "_StatementCompiler.on_Switch"]
+    for ref in cls_names:
+        f3 = model.func(f"{PYRTL}::{ref}")
+        calls = [n for n in ast.walk(f3) if isinstance(n, ast.Call) and unparse(n.func) == "self._emit_switch"]
+        need(len(calls) == 1, f"{ref}: _emit_switch call not found")
+        arg = calls[0].args[0]
+        binds = {unparse(s_.targets[0]): s_.value for s_ in ast.walk(f3) if isinstance(s_, ast.Assign) and len(s_.targets) == 1}
+        src = binds.get(unparse(arg))
+        ok = False
+        detail = unparse(src) if src is not None else "?"
+        if isinstance(src, ast.Call) and unparse(src.func).endswith("def_var") and len(src.args) == 2:
+            t = template_of(src.args[1])
+            e = t.as_expr() if t is not None else None
+            if e is not None and isinstance(e, ast.BinOp) and isinstance(e.op, ast.BitAnd) and len(t.holes) == 2:
+                hm, hv = t.holes
+                mw = pmatch("(1 << len(_V_X)) - 1", hm.expr)
+                vsrc = binds.get(hv.src, hv.expr)
+                vm = pmatch("_V_F(_V_Y)", vsrc)
+                ok = mw is not None and vm is not None and unparse(mw["_V_X"]) == unparse(vm["_V_Y"]) and \
+                    unparse(vm["_V_F"]) in ("self.rrhs", "self.rhs", "self")
+        ctx.check(ok, R, f"{ref}:switch-test-is-bit-pattern", "test = mask(len(test)) & raw(test)",
+                  f"the value handed to _emit_switch must be the test's unsigned bit pattern "
+                  f"(`(1 << len(test)) - 1 & <raw test>`): patterns are decoded as unsigned integers, so a sign-extended "
+                  f"(negative) test never equals them; found {detail}", f"{PYRTL}:{calls[0].lineno}")
     # netlist side: zip(conds, ...) pairs Match outputs with cases in order
     for ref, what in [(f"{IR}::NetlistEmitter.emit_stmt", "case_stmts"), (f"{IR}::NetlistEmitter.emit_assign", "elems"),
                       (f"{IR}::NetlistEmitter.emit_rhs", "elems")]:
@@ -920,15 +945,25 @@ def r02g(model, ctx):
         good = [b for b in found if pmatch("(1 << _V_HI) - (1 << lhs_start)", b[1]) is not None
                 and pmatch("rhs << lhs_start", b[2]) is not None and unparse(b[0]).endswith(".next")]
         ok = ok and bool(good)
+    fwq = model.func(f"{PYSIM}::_PyMemoryState.write")
+    seed_ok = any(isinstance(s_, ast.If) and unparse(s_.test) == "addr not in self.write_queue" and
+                  any(unparse(x) == "self.write_queue[addr] = self.data[addr]" for x in s_.body) for s_ in ast.walk(fwq))
+    ctx.check(seed_ok, R, "_PyMemoryState.write:queue-seeded", "write_queue[addr] seeded from data[addr] on first write",
+              "the first write to a row in a delta cycle must seed write_queue[addr] from data[addr] before merging",
+              f"{PYSIM}:{fwq.lineno}")
     ctx.check(ok, R, "_eval_assign_inner:Signal", "next & ~mask | (rhs << start) & mask, mask = (1<<stop)-(1<<start)",
               "testbench signal write must merge (old & ~mask) | ((rhs << lhs_start) & mask) with one mask built from "
               "lhs_start/lhs_stop", f"{PYEVAL}:{lf.lineno}")
 
-    for ref, label in [(f"{PYSIM}::_PySignalState.update", "_PySignalState.update"),
-                       (f"{PYSIM}::_PyMemoryState.write", "_PyMemoryState.write")]:
+    for ref, label, base in [(f"{PYSIM}::_PySignalState.update", "_PySignalState.update", "self.next"),
+                             (f"{PYSIM}::_PyMemoryState.write", "_PyMemoryState.write", "self.write_queue[addr]")]:
         f2 = model.func(ref)
         found = masked_merges(f2)
         ok = len(found) >= 1
+        okb = ok and all(unparse(b[0]) == base for b in found)
+        ctx.check(okb, R, label + ":base", f"the unmasked bits are kept from the *pending* value {base}",
+                  f"{label} must merge into the pending value `{base}` (so that several partial writes within one delta "
+                  f"cycle accumulate); found base {[unparse(b[0]) for b in found]}", f"{PYSIM}:{f2.lineno}")
         ctx.check(ok, R, label, f"merge {unparse(found[0][0])} & ~{unparse(found[0][1])} | {unparse(found[0][2])} & M" if ok else "",
                   f"{label} must merge with complementary polarity of one mask: old & ~mask | value & mask",
                   f"{PYSIM}:{f2.lineno}")
@@ -981,5 +1016,52 @@ def r02f(model, ctx):
               "driven (so the stored negative value keeps its sign bits)", f"{PYRTL}:{fc.lineno}")
 
 
-RULES = [("R-02a", r02a), ("R-02b", r02b), ("R-02c", r02c), ("R-02d", r02d), ("R-02e", r02e), ("R-02g", r02g),
+def r02h(model, ctx):
+    """Per-domain case lists are complete: when an If/Switch/FSM is split by domain, *every* branch keeps its
+    position in each domain's Switch (with an empty body where the domain has no statements); dropping a branch
+    removes its priority over the later ones."""
+    R = "R-02h"
+    fn = model.func(f"{DSL}::Module._pop_ctrl")
+    mod = model.mod(DSL)
+    dom_loops = [s for s in ast.walk(fn) if isinstance(s, ast.For) and unparse(s.target) == "domain" and unparse(s.iter) == "domains"]
+    need(len(dom_loops) == 3, f"_pop_ctrl: expected 3 per-domain loops (If, Switch, FSM), found {len(dom_loops)}")
+    for dl in dom_loops:
+        # the branch iteration inside
+        inner = [s for s in dl.body if isinstance(s, ast.For)]
+        need(len(inner) == 1, "_pop_ctrl: per-domain loop without exactly one branch loop")
+        il = inner[0]
+        kind = "If" if "if_tests" in unparse(il.iter) else "Switch" if "switch_cases" in unparse(il.iter) else "FSM"
+        bodies = []
+        for n in ast.walk(il):
+            m = pmatch("_V_X.get(domain, [])", n)
+            if m is not None:
+                bodies.append(n)
+        ok = len(bodies) == 1
+        cond_txt = ""
+        if ok:
+            p = mod.parent(bodies[0])
+            while p is not None and p is not il:
+                if isinstance(p, ast.If):
+                    ok = False
+                    cond_txt = unparse(p.test)
+                if isinstance(p, (ast.ListComp, ast.GeneratorExp)) and any(g.ifs for g in p.generators):
+                    ok = False
+                    cond_txt = "comprehension filter"
+                p = mod.parent(p)
+        # no statement of the branch loop may skip a branch
+        skips = [n for n in ast.walk(il) if isinstance(n, (ast.Continue, ast.Break))]
+        ok = ok and not skips
+        ctx.check(ok, R, f"_pop_ctrl:{kind}", "every branch contributes one case per domain: body = stmts.get(domain, [])",
+                  f"{kind}: when splitting by domain every branch must contribute exactly one case to every domain's "
+                  f"Switch, with body `<stmts>.get(domain, [])`; found {len(bodies)} such bodies"
+                  f"{', conditional on `' + cond_txt + '`' if cond_txt else ''}{', with continue/break' if skips else ''} "
+                  f"— a branch that is dropped for a domain no longer shadows the later branches (first match wins is "
+                  f"broken for that domain)", f"{DSL}:{il.lineno}")
+        # the Switch is built from the complete list, in order
+        sw = [n for n in ast.walk(dl) if isinstance(n, ast.Call) and dotted(n.func) == "Switch"]
+        ctx.check(len(sw) == 1, R, f"_pop_ctrl:{kind}:one-switch", "one Switch per domain",
+                  f"{kind}: exactly one Switch must be emitted per domain", f"{DSL}:{dl.lineno}")
+
+
+RULES = [("R-02h", r02h), ("R-02a", r02a), ("R-02b", r02b), ("R-02c", r02c), ("R-02d", r02d), ("R-02e", r02e), ("R-02g", r02g),
          ("R-02f", r02f)]
